@@ -155,7 +155,9 @@ pub mod rt {
             options[idx.min(options.len() - 1)]
         });
         if pick == usize::MAX {
-            RT.with(|r| { let mut r = r.borrow_mut(); let d = next_timer.unwrap(); if d > r.now_ms { r.now_ms = d; } });
+            // other tasks are runnable: time only creeps forward (a long timeout must not fire
+            // just because the scheduler looked away from a runnable task for one step)
+            RT.with(|r| { let mut r = r.borrow_mut(); let d = next_timer.unwrap().min(r.now_ms + 10); if d > r.now_ms { r.now_ms = d; } });
             return StepResult::Progress;
         }
         let mut fut = RT.with(|r| {
